@@ -9,6 +9,7 @@ import Signac.Proofs.Md5Shape
 import Signac.Proofs.FloatTokB
 import Signac.Proofs.EncInj
 import Signac.Proofs.BytesInj
+import Signac.Proofs.JsonRoundTrip
 namespace Signac.C01
 open Signac
 
@@ -167,5 +168,60 @@ theorem equal_ids_collision_or_equal_checked (fv : String → Int × Nat) {v w :
 
 example : floatsTokB (.obj [("b", .arr [.flt (-5) 1 "-2.5", .obj [("x", .flt 1 0 "1.0")]]), ("a", .int 1)]) = true := by
   decide
+
+/-! ### The JSON write/read round trip
+
+`parseText fv` (Signac/JsonParse.lean) is the model's `json.loads`: objects are read as
+association lists in the order written; float tokens become `.flt n e r` with `(n, e) = fv r`.
+`FloatsOk fv v` is the same hypothesis as above: the float leaves of `v` carry float tokens
+that `fv` reads back to their values. -/
+
+/-- Reading `json.dumps(v)` gives `v` back, exactly (key order and duplicates included). -/
+theorem dump_parses_back (fv : String → Int × Nat) {v : JVal} (hv : FloatsOk fv v) :
+    parseText fv (dumpChars v) = some v :=
+  parseText_enc fv hv
+
+/-- Reading the hashed text `json.dumps(v, sort_keys=True)` gives the canonical value. -/
+theorem canonText_parses_back (fv : String → Int × Nat) {v : JVal} (hv : FloatsOk fv v) :
+    parseText fv (canonChars v) = some (canon v) :=
+  parseText_canonChars fv hv
+
+/-- The id is identical after a JSON write/read round trip through the sort_keys text:
+    what is read back hashes to the original id. -/
+theorem roundtrip_same_id (fv : String → Int × Nat) {v : JVal} (hv : FloatsOk fv v) :
+    ∃ w, parseText fv (canonChars v) = some w ∧ calcId w = calcId v :=
+  ⟨canon v, parseText_canonChars fv hv, calcId_canon v⟩
+
+/-- … and through the insertion-order dump, i.e. the content of the state point file: reading
+    the file back gives a state point with the same id (the validation `Job.init` /
+    `_StatePointDict.load` perform). -/
+theorem dump_roundtrip_same_id (fv : String → Int × Nat) {v : JVal} (hv : FloatsOk fv v) :
+    ∃ w, parseText fv (dumpChars v) = some w ∧ calcId w = calcId v :=
+  ⟨v, parseText_enc fv hv, rfl⟩
+
+/-- Two texts produced by `json.dumps` that read back to the same value are the same text. -/
+theorem parse_injective_on_range (fv : String → Int × Nat) {v w : JVal} (hv : FloatsOk fv v)
+    (hw : FloatsOk fv w) (h : parseText fv (encChars v) = parseText fv (encChars w)) :
+    encChars v = encChars w := by
+  rw [parseText_enc fv hv, parseText_enc fv hw] at h
+  rw [Option.some.inj h]
+
+/- non-vacuity: a nested value with floats, a string needing every kind of escape (quote,
+   backslash, control, BMP `\u00e9`, astral surrogate pair), an empty array and an empty object
+   satisfies the hypothesis for the concrete `fvDemo`, so its dump and its hashed text read back. -/
+example :
+    let v := JVal.obj [("b", .arr [.flt (-5) 1 "-2.5", .obj [("x", .flt 1 0 "1.0"), ("y", .null)]]),
+                       ("a", .int (-12)), ("s", .str "q\"\\\n\x01é😀"), ("e", .arr []), ("o", .obj [])]
+    FloatsOk fvDemo v ∧ parseText fvDemo (dumpChars v) = some v
+      ∧ parseText fvDemo (canonChars v) = some (canon v) := by
+  refine ⟨?_, ?_⟩
+  · simp only [FloatsOk, FloatsOkObj, FloatsOkList, and_true]
+    exact ⟨⟨⟨by decide, by decide, by decide⟩, by decide⟩, floatTok_one, by decide⟩
+  · have hv : FloatsOk fvDemo (JVal.obj [("b", .arr [.flt (-5) 1 "-2.5",
+        .obj [("x", .flt 1 0 "1.0"), ("y", .null)]]), ("a", .int (-12)),
+        ("s", .str "q\"\\\n\x01é😀"), ("e", .arr []), ("o", .obj [])]) := by
+      simp only [FloatsOk, FloatsOkObj, FloatsOkList, and_true]
+      exact ⟨⟨⟨by decide, by decide, by decide⟩, by decide⟩, floatTok_one, by decide⟩
+    exact ⟨dump_parses_back fvDemo hv, canonText_parses_back fvDemo hv⟩
 
 end Signac.C01
